@@ -115,7 +115,7 @@ def run_part(chk):
         r = _run(chk, exe, "corpus -in %s -tier %s" % (corpus, chk.tier), "corpus", 1200)
         if r:
             _fold(chk, part, r)
-    n = 70 if chk.tier == "quick" else 1500
+    n = 70 if chk.tier == "quick" else 600
     r = _run(chk, exe, "gen -seed %d -n %d -knobs all -tier %s" % (chk.seed, n, chk.tier), "gen", 6 * 3600)
     if r:
         _fold(chk, part, r)
